@@ -761,6 +761,8 @@ type ident_kind =
 | IKExpr
 | IKSpread
 
+val paren_span : sp -> sp
+
 val assign_right : node -> ident_kind -> node
 
 val expr_or_spread : node -> ident_kind -> node
